@@ -783,6 +783,13 @@ Handler::ArgResult
       // we may only advance the main iterator if the argument is (still)
       // handled by the sub-argument
       auto  subAI( ai);
+
+      // the handler of the sub-group evaluates words from the same source:
+      // values from an argument file or an environment variable must not be
+      // counted for the cardinality there either
+      const common::ScopedValue< uint8_t>  subReadMode( subArgHandler->mReadMode,
+         mReadMode);
+
       while ((subAI != end)
              && (subArgHandler->evalSingleArgument( subAI, end) == ArgResult::consumed))
       {
